@@ -15,6 +15,9 @@
                 kind 2  sig.connect(callback) on this thread with the thread's own signal object (a strong
                         handle, released after connect); the callback stays for `limit` calls (0 = for ever)
                 kind 3  detached cocls::async<void> coroutine (frame freed when it finishes), otherwise as kind 0
+                kind 4  plain coroutine awaiting signal<T>::hook_up(fn) (signal.h:324-386): its first await creates the state,
+                        subscribes, and only then runs fn, which hands the collector to the collector thread; that thread
+                        (blocked until then) emits while the rest of the hook-up is still running.  Only with one collector thread
      collector          one thread; actions 1 = call the collector with the next value 1,2,3.., 0 = drop the handle
    Every subscriber holds a strong reference while it is inside subscribe (emitter::await_suspend locks the
    weak pointer, signal.h:193; connect runs on a signal object), so the state can die on a subscriber's
@@ -28,6 +31,8 @@ Inductive kont :=
 
 Inductive xpc :=
 | XStep (acts : list Z)                                  (* collector before its next action; point "step" *)
+| XWaitReg (acts : list Z)                               (* hook-up case: collector thread waits until the registration function
+                                                            has handed it the collector; block "xwait" *)
 | XAsub                                                  (* subscriber before its CAS; point "asub" *)
 | XApub                                                  (* subscriber after its CAS; point "apub" *)
 | XFlag                                                  (* blocking listener in flag.wait; block "flagwait" *)
@@ -139,6 +144,8 @@ Definition xstep (s : xst) (t : nat) : xst :=
   | None => s
   | Some pc =>
       match pc with
+      | XWaitReg [] => set_pc s t XDone
+      | XWaitReg acts => set_pc s t (XStep acts)
       | XStep [] => set_pc s t XDone
       | XStep (a :: acts) =>
           if a =? 1 then
@@ -177,13 +184,22 @@ Definition xstep (s : xst) (t : nat) : xst :=
 
 Definition pc_code (p : xpc) : Z :=
   match p with
-  | XStep _ => 30 | XAsub | XCbAsub _ _ _ _ => 10 | XApub | XCbApub _ _ _ _ => 11 | XFlag => 8
+  | XStep _ => 30 | XWaitReg _ => 9 | XAsub | XCbAsub _ _ _ _ => 10 | XApub | XCbApub _ _ _ _ => 11 | XFlag => 8
   | XRchain _ => 12 | XWalk _ _ _ | XFutWalk _ _ _ _ => 4 | XDone => 0
+  end.
+
+(* the hook-up listener is past its subscribe, i.e. the registration function has run *)
+Fixpoint registered_from (pcs : list xpc) (ls : list xlis) : bool :=
+  match pcs, ls with
+  | p :: r, l :: u =>
+      (if t_kind l =? 4 then match p with XAsub | XApub => false | _ => true end else true) && registered_from r u
+  | _, _ => true
   end.
 
 Definition x_enabled_pc (s : xst) (t : nat) (p : xpc) : bool :=
   match p with
   | XDone => false
+  | XWaitReg _ => registered_from (x_pcs s) (x_lis s)
   | XFlag => match res_of (x_resolved s) t with Some _ => true | None => false end
   | _ => true
   end.
@@ -218,7 +234,7 @@ Definition truncate_acts (l : list Z) : list Z :=
 
 Definition decode_thr (l : list Z) : list (xpc * xlis) :=
   match l with
-  | [1; k; lim] => if (0 <=? k) && (k <=? 3) && (0 <=? lim) && (lim <=? 9)
+  | [1; k; lim] => if (0 <=? k) && (k <=? 4) && (0 <=? lim) && (lim <=? 9)
                    then [(XAsub, mkL k (Z.to_nat lim) 0)] else []
   | 2 :: acts => [(match truncate_acts acts with [] => XDone | a => XStep a end, mkL 9 0 0)]
   | _ => []
@@ -226,12 +242,19 @@ Definition decode_thr (l : list Z) : list (xpc * xlis) :=
 Definition decode_sched (l : list Z) : list Z := match l with 9 :: r => r | _ => [] end.
 
 Definition is_coll (x : xpc * xlis) : bool := t_kind (snd x) =? 9.
+Definition is_hook (x : xpc * xlis) : bool := t_kind (snd x) =? 4.
+Definition hook_mode (thr : list (xpc * xlis)) : bool := existsb is_hook thr.
 Definition x_valid (thr : list (xpc * xlis)) : bool :=
-  Nat.eqb (length (filter is_coll thr)) 1 && Nat.leb (length thr) 6.
+  Nat.eqb (length (filter is_coll thr)) 1 && Nat.leb (length thr) 6 &&
+  (negb (hook_mode thr) || Nat.eqb (length thr) 2).
+
+Definition ipc (h : bool) (x : xpc * xlis) : xpc :=
+  match fst x with XStep a => if h then XWaitReg a else XStep a | p => p end.
 
 Definition x_init (thr : list (xpc * xlis)) : xst :=
-  (* the collector's handle + one reference per subscriber (taken before its first yield point) *)
-  mkX (map fst thr) (map snd thr) [] (length thr) None 1 [] [].
+  (* the collector's handle + one reference per subscriber (taken before its first yield point; for the hook-up
+     listener: the local signal object of hook_up_emitter::await_suspend) *)
+  mkX (map (ipc (hook_mode thr)) thr) (map snd thr) [] (length thr) None 1 [] [].
 
 Definition encode_xev (e : xev) : list Z :=
   match e with
@@ -310,6 +333,7 @@ Definition expect_of (i : Z) (x : xlis) (tk : option (list (option Z))) : list (
   | None => []
   | Some tk =>
       if t_kind x =? 2 then cb_expect i (t_limit x) 0 tk
+      else if t_kind x =? 4 then []      (* decided by hook_expect below *)
       else match tk with
            | [] => []
            | Some j :: _ => [[8; 1; i; j]]
@@ -348,6 +372,11 @@ Definition sx_oracle (ops obs : list (list Z)) : bool :=
                 | [] => true
                 | x :: r =>
                     (if is_coll x then lists_eqb (evs_of k obs) []
+                     else if is_hook x then
+                       (* the listener receives every value emitted through the collector it was hooked up with, from
+                          its first subscription on: it is one-shot, so exactly the first one; none emitted => cancelled *)
+                       lists_eqb (evs_of k obs)
+                                 (if 0 <? nemit then [[8; 1; k; 1]] else if closed then [[8; 2; k; 0]] else [])
                      else lists_eqb (evs_of k obs) (expect_of k (snd x) (after_cas tr k coll nemit 0)))
                     && go r (k + 1)
                 end) thr 0 in
@@ -368,6 +397,7 @@ Definition ss_valid (l : list Z) : bool :=
   match l with
   | [40; per; n; mask; j] =>
       (1 <=? per) && (per <=? 1000000) && (1 <=? n) && (n <=? 4) && (0 <=? mask) && (mask <=? 15) && (0 <=? j) && (j <=? 1000)
+  | [42; iters; j] => (1 <=? iters) && (iters <=? 1000000) && (0 <=? j) && (j <=? 1000)     (* hook-up rounds *)
   | _ => false
   end.
 Definition ss_run (ops : list (list Z)) : list (list Z) :=
